@@ -1976,16 +1976,21 @@ HalfFaceHandle TopologyKernel::find_halfface(const std::vector<VertexHandle>& _v
 
     assert(v0.is_valid() && v1.is_valid() && v2.is_valid());
 
-    HalfEdgeHandle he0 = find_halfedge(v0, v1);
-    if(!he0.is_valid()) return InvalidHalfFaceHandle;
-    HalfEdgeHandle he1 = find_halfedge(v1, v2);
-    if(!he1.is_valid()) return InvalidHalfFaceHandle;
+    // There may be several (parallel) halfedges from v0 to v1 and from v1 to v2:
+    // consider all of them, not only the first one found.
+    for(VertexOHalfEdgeIter voh_it = voh_iter(v0); voh_it.valid(); ++voh_it) {
+        const HalfEdgeHandle he0 = *voh_it;
+        if(halfedge(he0).to_vertex() != v1) continue;
 
-    std::vector<HalfEdgeHandle> hes;
-    hes.push_back(he0);
-    hes.push_back(he1);
+        for(HalfEdgeHalfFaceIter hehf_it = hehf_iter(he0); hehf_it.valid(); ++hehf_it) {
+            const HalfEdgeHandle he1 = next_halfedge_in_halfface(he0, *hehf_it);
+            if(he1.is_valid() && halfedge(he1).to_vertex() == v2) {
+                return *hehf_it;
+            }
+        }
+    }
 
-    return find_halfface(hes);
+    return InvalidHalfFaceHandle;
 }
 
 //========================================================================================
@@ -2044,8 +2049,11 @@ HalfFaceHandle TopologyKernel::find_halfface_extensive(const std::vector<VertexH
 
   assert(v0.is_valid() && v1.is_valid());
 
-  HalfEdgeHandle he0 = find_halfedge(v0, v1);
-  if(!he0.is_valid()) return InvalidHalfFaceHandle;
+  // consider every (possibly parallel) halfedge from v0 to v1
+  for(VertexOHalfEdgeIter voh_it = voh_iter(v0); voh_it.valid(); ++voh_it)
+  {
+  const HalfEdgeHandle he0 = *voh_it;
+  if(halfedge(he0).to_vertex() != v1) continue;
 
   for(HalfEdgeHalfFaceIter hehf_it = hehf_iter(he0); hehf_it.valid(); ++hehf_it)
   {
@@ -2073,6 +2081,7 @@ HalfFaceHandle TopologyKernel::find_halfface_extensive(const std::vector<VertexH
 
     if (all_vertices_found)
       return *hehf_it;
+  }
   }
 
   return InvalidHalfFaceHandle;
